@@ -91,7 +91,7 @@ def member_class(beh):
     return type("Member_" + beh, (MemberSolver,), {"BEHAVIOUR": beh})
 
 
-SCRIPTS = ("solve", "solve+model", "solve+value", "solve-push-solve", "is_sat", "solve-twice")
+SCRIPTS = ("solve", "solve+model", "solve+value", "solve-push-solve", "is_sat", "solve-twice", "is_sat-add-solve")
 
 
 def make_body(env, names, script, exit_on_exception, unsat):
@@ -111,6 +111,14 @@ def make_body(env, names, script, exit_on_exception, unsat):
         p = Portfolio(names, environment=env, logic=QF_BOOL, **opts)
         try:
             p.add_assertion(base)
+            if script == "is_sat-add-solve":
+                # a one-shot query (leaves a deferred pop), then a plain assertion, then solve: the
+                # assertion must survive
+                obs = {"query": p.is_sat(a)}
+                p.add_assertion(m.And(m.Not(a), m.Not(b)))
+                obs["verdict"] = p.solve()
+                obs["n_assertions"] = len(p.assertions)
+                return obs
             obs = {"verdict": p.solve()}
             if obs["verdict"] and script == "solve+model":
                 model = p.get_model()
@@ -135,6 +143,8 @@ def make_body(env, names, script, exit_on_exception, unsat):
                     model = p.get_model()
                     val = {"a": model.get_py_value(a), "b": model.get_py_value(b)}
                     obs["model3_ok"] = bool(holds(base, val))
+            elif script == "is_sat-add-solve":
+                pass    # handled below (needs the incremental one-shot query first)
             elif script == "solve-twice":
                 obs["verdict2"] = p.solve()
                 if obs["verdict2"]:
@@ -152,6 +162,8 @@ def make_body(env, names, script, exit_on_exception, unsat):
 
 def expected(script, unsat):
     sat = not unsat
+    if script == "is_sat-add-solve":
+        return {"query": sat, "verdict": False, "n_assertions": 2}
     e = {"verdict": sat}
     if script in ("solve+model", "solve+value") and sat:
         e["model_ok"] = True
@@ -256,7 +268,7 @@ def configs(ctx):
                             continue
                         if n == 3 and script not in ("solve", "solve+model"):
                             continue
-                        two = script in ("solve-push-solve", "solve-twice")
+                        two = script in ("solve-push-solve", "solve-twice", "is_sat-add-solve")
                         if q and two and (eoe or any(b in ("unknown", "exit") for b in behs)):
                             continue
                         bound = (2 if two else None) if n == 2 else 3
